@@ -15,6 +15,7 @@ func init() {
 			rulePCArg(c, nil, 18, 3)
 			rulePCReg(c)
 			ruleArrBound(c)
+			ruleDstFresh(c)
 			c.Assume = append(c.Assume, "reflect.Int is 64 bits wide (linux/amd64); on a 32-bit target the Int -> Int64Codec row would be a finding")
 		})
 }
@@ -77,5 +78,6 @@ func init() {
 			ruleRegPair(c)
 			rulePCReg(c)
 			rulePCNew(c)
+			ruleSGNull(c)
 		})
 }
